@@ -25,7 +25,49 @@ def run(tier, seed, model):
                            force_caps_choices=(False,))
     if not camp.oracle_failures:
         interleaved(camp, rng, 150 if tier == "quick" else 3000)
+    if not camp.oracle_failures:
+        drag_and_other_callers(camp, rng, 2 if tier == "quick" else 12)
     return camp
+
+
+def drag_and_other_callers(camp, rng, n):
+    """'finishes before any later operation starts', through the threaded API: while one application thread's drag is
+    running a second thread makes a call on the same client; at the server the drag's events are not interrupted"""
+    import c11
+    import common as _c
+    from concurrent.futures import ThreadPoolExecutor
+    specs = []
+    for i in range(n):
+        tx = rng.randrange(4, 8)
+        other = rng.choice([("keyPress", ["a"]), ("mousePress", [3]), ("keyPress", ["enter"])])
+        specs.append({"repo": _c.REPO, "harness": _c.VERIF + "/harness", "timeout": 6, "kind": "dragthreads", "clients": [
+            {"id": 1, "server": "ok",
+             "calls": [{"method": "mouseMove", "args": [0, 0], "sleep": 0}, {"method": "mouseDrag", "args": [tx, 0, 1], "sleep": 0}],
+             "calls2": [{"method": other[0], "args": other[1], "sleep": 0}], "delay2": round(rng.uniform(0.4, 0.9), 2)}]})
+    with ThreadPoolExecutor(max_workers=4) as ex:
+        obs = list(ex.map(c11.run_child, specs))
+    for i, (spec, ob) in enumerate(zip(specs, obs)):
+        camp.evaluations += 1
+        camp.count("drag-with-a-second-caller")
+        camp.nontrivial.add(("dragthreads", i))
+        why = None
+        if "error" in ob:
+            why = "the child process failed: " + ob["error"][-200:]
+        else:
+            wire = bytes.fromhex(ob["received"].get("1", ""))[14:]
+            msgs = [m for m in (clientops.parse_c2s(wire) or []) if m[0] in ("KeyEvent", "PointerEvent")]
+            tx = spec["clients"][0]["calls"][1]["args"][0]
+            drag = [("PointerEvent", 0, x, 0) for x in range(0, tx)] + [("PointerEvent", 0, tx, 0)]
+            # the drag's events, in order, as one uninterrupted run
+            start = next((k for k in range(len(msgs)) if msgs[k:k + len(drag)] == drag), None)
+            other = spec["clients"][0]["calls2"][0]
+            if start is None:
+                first = next((k for k, m in enumerate(msgs) if m == ("PointerEvent", 0, 0, 0)), 0)
+                why = (f"the events of mouseDrag({tx}, 0) do not arrive as one run: the server received {msgs[first:first + len(drag) + 4]} "
+                       f"(a second thread called {other['method']}{tuple(other['args'])} {spec['clients'][0]['delay2']} s into the drag)")
+        if why:
+            camp.oracle_failures.append({"kind": "oracle", "property": "C05", "case": {"dragthreads": i}, "what": why})
+            return
 
 
 def interleaved(camp, rng, n):
@@ -80,6 +122,8 @@ def interleaved(camp, rng, n):
 
 
 def replay(payload):
+    if "dragthreads" in payload["case"]:
+        return True, "replay: threaded drag scenario; re-run ./check C05"
     if payload["case"].get("debug_logging"):
         from c04 import debug_logging
         with debug_logging():
